@@ -16,7 +16,9 @@ RULE = ("collections of 1..8 trees on the same 4..9 taxa: a random multifurcatin
         "dyadic length; thresholds 0.5, 0.51, 0.55, 0.58, 0.6, 2/3, 0.7, 0.75, 0.8, 0.9, 1 and k/n for the collection size n "
         "(frequencies exactly on the threshold: 1 of 2, 2 of 4, 3 of 4, 3 of 5, 4 of 6, 6 of 8 ..., and the 50-tree collections "
         "29/50 at 0.58, plus 63/90 at 0.7 and 57/100 at 0.57 in the thorough tier); every base collection is run again "
-        "shuffled, with every input re-rooted (unrooted inputs) and with some inputs rooted; rejection cases: thresholds 0.49, 0, "
+        "shuffled, with every input re-rooted (unrooted inputs) and with some inputs rooted, and with PRE-USED inputs (the worker indexes "
+        "each tree, edits it through the public API without re-indexing -- Rename / SetName swap of two tips, Reroot, "
+        "RotateInternalNodes -- dumps it, then calls Consensus; model and oracle work on the dumped trees); rejection cases: thresholds 0.49, 0, "
         "-1, 1.01, 2 and collections where one tree has a renamed, missing or extra tip (first / middle / last position); "
         "non-trivial = some split occurs in some but not all trees (or the case must be rejected); distinct = distinct case text")
 TRUSTED = ["trees built through NewNode/NewEdge + verif hooks (exact neighbour order); result dumped through Neigh()/Edges()",
@@ -87,9 +89,22 @@ def meta_of(kind, trees, cutoff):
     return {"kind": kind, "n": n, "ntips": len(leaves(trees[0])) if trees else 0,
             "has_rooted": any(len(t["slots"]) == 2 for t in trees), "on_threshold": on, "cutoff": str(cutoff)}
 
-def case(out, kind, trees, cutoff):
+def case(out, kind, trees, cutoff, pres=None):
     c = {"trees": [T(t) for t in trees], "cutoff": Fraction(cutoff)}
-    out.append({"sx": sx(c), "meta": meta_of(kind, trees, Fraction(cutoff))})
+    if pres is not None:
+        c["pres"] = pres
+    m = meta_of(kind, trees, Fraction(cutoff))
+    m["preused"] = pres is not None
+    out.append({"sx": sx(c), "meta": m})
+
+def pre_edits(ts, rng):
+    """one index-invalidating public edit per input tree (applied by the worker after ReinitIndexes, without
+    re-indexing); a rooted input is never re-rooted (its old root would become a single-child node)"""
+    r = []
+    for t in ts:
+        kinds = ["none", "rename", "rename", "setname", "rotate"] + ([] if len(t["slots"]) == 2 else ["reroot"])
+        r.append(_c08.edit_for(t, rng, rng.choice(kinds)))
+    return r
 
 def variant(base, rng, g):
     w = rng.random()
@@ -142,6 +157,7 @@ def gen(rng, tier):
         cuts.append(Fraction(rng.choice(ks), n))
         for cu in cuts:
             case(out, "random", ts, cu)
+        case(out, "preused", ts, cuts[-1], pres=pre_edits(ts, rng))
         sh = list(ts); rng.shuffle(sh)
         case(out, "shuffled", [shuffle_children(t if len(t["slots"]) == 2 else reroot_at(t, rng), rng) for t in sh], cuts[-1])
         if p_rooted == 0:
@@ -186,5 +202,6 @@ def gen(rng, tier):
     case(out, "witness", [w2], Fraction(1, 2))
     case(out, "witness", [w2, from_shape(g, [["t0", "t2"], ["t1", "t3"]], rng), from_shape(g, [["t0", "t1"], ["t2", "t3"]], rng)], Fraction(1, 2))
     case(out, "witness", [from_shape(g, [["a", "b"], "c", "d"], rng)] * 1 + [from_shape(g, ["a", "b", "c", "d"], rng)], Fraction(1, 2))
+    case(out, "witness-pre", [w1, clone(w1), clone(w1)], Fraction(1, 2), pres=[_c08.NONE, [Sym("rename"), "t0", "t1"], [Sym("setname"), "t3", "t2"]])
     case(out, "empty", [], Fraction(1, 2))
     return out
